@@ -17,7 +17,7 @@ var Sigma = []string{
 // a few bytes outside it (a lone carriage return, backslash, NUL, the pieces of the
 // two-byte operators, a single quote, and Unicode white space that is not ASCII).
 var EditSyms = append(append([]string{}, Sigma...), "\r", "\\", "\x00", "=", "-", ">", "'", "\u00a0", "\u2028", "\v",
-	"\u0085", "\ufeff", "e\u0301", "\U0001d49c", "\u200d", "task ", "\n#\n", " \"%s\"", " \"50%\"")
+	"\u0085", "\ufeff", "e\u0301", "\U0001d49c", "\u200d", "task ", "\n#\n", " \"%s\"", " \"50%\"", " 'q'")
 
 // Input is one generated input with its provenance.
 type Input struct {
